@@ -46,6 +46,8 @@ def run(ctx):
     ck.rule('C07-D6', 'status line and fields are read the way the HTTP reader accepted them: the first line is cut at the same line end '
                       'the block pattern accepts (bare LF included), and header unfolding treats a line starting with SP or HTAB as a '
                       'continuation (RFC 7230 obs-fold), so a folded Content-Type still yields the MIME column')
+    ck.rule('C07-D7', 'the MIME column is the media type of the Content-Type field: the pattern that cuts type/subtype out of the value '
+                      'accepts every token character of RFC 7230 on both sides of the slash (vnd.ms-excel, svg+xml, x.y_z)')
     hdr = repo.func(CLS + '._write_cdx_header')
     fld = repo.func(CLS + '._write_cdx_field')
     wr = repo.func(CLS + '.write_record')
@@ -388,6 +390,7 @@ def run(ctx):
 
     _d5_fresh_cdx(ctx, hdr)
     _d6_header_lines(ctx)
+    _d7_mime(ctx)
 
 
 def _tri(test, atom_pred, value):
@@ -535,6 +538,38 @@ def _fold_on(e, var, val):
         if isinstance(op, ast.NotEq):
             return l != r
     raise _NoFold()
+
+
+TCHAR = "!#$%&'*+-.^_`|~" + ''.join(chr(c) for c in range(48, 58)) + ''.join(chr(c) for c in range(65, 91)) + ''.join(chr(c) for c in range(97, 123))
+
+
+def _d7_mime(ctx):
+    repo, ck = ctx.repo, ctx.check
+    pm = repo.func(CLS + '.parse_mimetype')
+    mod = repo.module('wpull.warc.recorder')
+    got = [RX.rx_from_method_call(repo, mod, c) for c in U.calls(pm.node)]
+    got = [g for g in got if g is not None]
+    if not got:
+        # C07-D2 demands a token/token pattern (nothing else keeps the column delimiter out); without one there is nothing to measure
+        ck.bad('C07-D7', pm.qual, 'type/subtype cut out by a constant pattern', 'the media type is no longer cut out of the Content-Type value by a '
+               'constant pattern, so it cannot be shown to be exactly the type/subtype tokens', pm.loc())
+        return
+    for rx, _shift in got:
+        seq = rx.flat()
+        # <repeat of a class> "/" <repeat of a class>
+        ok = len(seq) == 3 and RX.is_repeat(seq[0][0]) and seq[1] == (C.LITERAL, ord('/')) and RX.is_repeat(seq[2][0]) \
+            and all(len(list(x[1][2])) == 1 for x in (seq[0], seq[2]))
+        missing = {}
+        if ok:
+            for side, x in (('type', seq[0]), ('subtype', seq[2])):
+                item = list(x[1][2])[0]
+                miss = [ch for ch in TCHAR if not RX.class_matches(item, ord(ch), rx.ignorecase)]
+                if miss:
+                    missing[side] = ''.join(miss)
+        ck.expect(ok and not missing, 'C07-D7', pm.qual, 'pattern %r accepts every token character in type and subtype' % rx.pattern,
+                  'the media-type pattern %r %s: for `Content-Type: application/vnd.ms-excel` the CDX line says `application/vnd`, for '
+                  '`image/svg+xml` it says `image/svg` - not the MIME type of the archived response'
+                  % (rx.pattern, ('stops at %s' % missing) if missing else 'has an unexpected shape'), pm.loc(rx.call))
 
 
 def _block_separators(repo, fmod, gh):
